@@ -443,7 +443,54 @@ def w_cursor(failure, tier):
     return dict(found=False, note='cursor decoding: %d cursor strings x 2 cursor kinds through IndexReader::search, none panics' % len(cands))
 
 
+# ---------------------------------------------------------------- U6 highlight fragments
+def w_highlight(failure, tier):
+    """documents with multi-byte text, highlight requests with small fragment sizes: every returned fragment must be
+    non-empty, contain a tagged match, and (tags removed) be a substring of the stored text no longer than fragment_size"""
+    texts = []
+    for pre in range(0, 9):
+        for ch in ('\u00e9', '\u4e2d', '\U0001F600'):
+            texts.append(ch * pre + ' alpha ' + ch * 5)
+            texts.append('x' + ch * pre + ' alpha')
+    docs = [{"_id": "d%d" % i, "body": t} for i, t in enumerate(texts)]
+    reqs = []
+    sizes = [10, 11, 12, 13, 14, 15, 16, 20]
+    for fs in sizes:
+        reqs.append(dict(REQ_BASE, query="alpha", return_stored=True,
+                         highlight={"fields": {"body": {"pre_tag": "[", "post_tag": "]", "fragment_size": fs, "number_of_fragments": 2}}}))
+    out, err = drive_search({"schema": None, "batches": [docs], "requests": reqs})
+    if out is None:
+        return dict(found=False, note='search driver failed: %s' % err)
+    n = 0
+    for fs, o in zip(sizes, out):
+        if 'panic' in o:
+            return dict(found=True, cmd='%s search' % BIN, input='highlight fragment_size %d' % fs, observed='PANIC ' + o['panic'][:200], expected='no panic')
+        if 'ok' not in o:
+            continue
+        for h in o['ok']['hits']:
+            text = dict((d['_id'], d['body']) for d in docs)[h['doc_id']]
+            for frag in (h.get('highlights') or {}).get('body', []):
+                n += 1
+                plain = frag.replace('[', '').replace(']', '')
+                bad = None
+                if frag == '':
+                    bad = 'an EMPTY fragment'
+                elif '[' not in frag:
+                    bad = 'a fragment without a tagged match: %r' % frag
+                elif plain not in text:
+                    bad = 'a fragment that is not a substring of the text: %r' % frag
+                elif len(plain.encode()) > fs:
+                    bad = 'a fragment of %d bytes > fragment_size' % len(plain.encode())
+                if bad:
+                    return dict(found=True, cmd='%s search <<< hex(json)' % BIN,
+                                input='document body=%r (%d bytes); query alpha; highlight body fragment_size=%d (match length 5, so fragment_size >= 2*5)' % (text, len(text.encode()), fs),
+                                observed='highlights.body contains ' + bad,
+                                expected='every fragment non-empty, containing a tagged match, a substring of the text, at most fragment_size bytes')
+    return dict(found=False, note='highlight: %d fragments over %d multi-byte documents x %d fragment sizes are all well-formed' % (n, len(docs), len(sizes)))
+
+
 GENERATORS = {
+    ('U6', 'frag_loop'): w_highlight,
     ('U9', 'decode_hex'): w_cursor,
     ('U9', 'hex_decode'): w_cursor,
     ('U11', 'search'): w_phrase,
